@@ -4,6 +4,7 @@ import checks_ns
 import checks_idm
 import checks_copy
 import checks_wrap
+import checks_os
 
 CHECKS = {
     "C01": checks_ns.check_c01,
@@ -16,6 +17,7 @@ CHECKS = {
     "C12": checks_wrap.check_c12,
     "C15": checks_idm.check_c15,
     "C16": checks_copy.check_c16,
+    "C17": checks_os.check_c17,
 }
 
 
